@@ -15,6 +15,7 @@ XMODEL = REPO + "/xpath/src/eval/model.rs"
 XEVAL = REPO + "/xpath/src/eval/mod.rs"
 
 _dump = None
+LAST_REACH = False
 
 
 def dump():
@@ -92,7 +93,23 @@ def fn_table(I):
 def decide(I, paths, post, timeout_s=120):
     """paths: results of I.explore; post(path) -> bool term that must hold on that path.
     -> ('holds', None) | ('sat', (model, path)) | ('unknown', why)"""
+    global LAST_REACH
     n = 0
+    # vacuity guard: the harness assumptions together with at least one path condition must be satisfiable
+    LAST_REACH = False
+    for p in paths:
+        s = z3.Solver()
+        s.set("timeout", int(timeout_s * 1000))
+        for c in I.base:
+            s.add(c)
+        for c in p["pc"]:
+            s.add(c)
+        n += 1
+        if s.check() == z3.sat:
+            LAST_REACH = True
+            break
+    if paths and not LAST_REACH:
+        return "unknown", "vacuous: no path is satisfiable together with the harness assumptions", n
     for p in paths:
         want = post(p)
         if want is True:
